@@ -82,8 +82,8 @@ pub mod state {
         //@ fn src/writers/file_log_writer/state/timestamps.rs fn creation_timestamp_of_currentfile
         //@   ret r
         //@   props C09,C06,C14,C19
-        //@   closure 1 sig || -> (r: DateTime<Local>)
-        //@   closure 1 ens r == creation_ts(pathbuf_view(&current_path))
+        //@   closure ~get_creation_timestamp ## sig || -> (r: DateTime<Local>)
+        //@   closure ~get_creation_timestamp ## ens r == creation_ts(pathbuf_view(&current_path))
         //@   ens[creation_timestamp_of_currentfile.post] r == ctoc_spec(config, current_infix@, rotate_rcurrent, odate(o_date_for_rotated_file), fmt.fview())
         //@   count 1 std::fs::rename(
         //@   canary
